@@ -864,7 +864,10 @@ def _emit_set(draw, S, b, allow_set_broadcast):
     idx = _basic_index(draw, shape)
     tshape = np.shape(S.regs[0][b][idx])
     if draw(st.integers(0, 3)) == 0:
-        c = draw(st.sampled_from([1.0, 0.0, 2, -1.5]))
+        if len(tshape) >= 1 and draw(st.booleans()):
+            c = np.asarray(draw(gen.float_array(tshape, st.sampled_from([0.5, 1.0, 2.0, -1.0, 0.0]), sparse=False)), dtype=float)
+        else:
+            c = draw(st.sampled_from([1.0, 0.0, 2, -1.5]))
         return S.try_emit(['setc', b, idx, c])
 
     def fits(r):
@@ -941,8 +944,8 @@ def features(case):
                 f.add('rewrite-after-read')
             if ins[1] != r and prog[ins[1] - nin][0] in ('get', 'T'):
                 f.add('view-write')
-            if op == 'set' and root.get(ins[3]) is None:
-                pass
+            if op == 'setc' and isinstance(ins[3], np.ndarray):
+                f.add('write-ndarray-const')
         else:
             for a in ins[1:]:
                 if isinstance(a, int) and not isinstance(a, bool) and a in root and op not in ('zeros', 'ones', 'pow', 'sum', 'tile'):
